@@ -182,6 +182,23 @@ def gen_graph(r, classes, labels, depth=4):
     return top
 
 
+def repeated_dumps(rp, *graphs):
+    """Outcome of dumps over several attempts on the same class (a caller that catches the Warning and tries again, a
+    second worker created with the same argument): the first attempt that is not rejected names the outcome."""
+    for n, g in enumerate(graphs):
+        for proto in ((None,) if n == 0 else (None, 2)):
+            try:
+                rp.dumps(g) if proto is None else rp.dumps(g, protocol=proto)
+                out = 'accepted'
+            except Warning:
+                out = 'warning'
+            except BaseException as e:  # noqa
+                out = 'exc:' + type(e).__name__
+            if out != 'warning' or len(graphs) == 1:
+                return out if n == 0 else '%s-on-attempt-%d' % (out, n + 1)
+    return 'warning'
+
+
 def run(tier):
     thorough = tier == 'thorough'
     chk = Check('C13', 'exploration', tier,
@@ -300,13 +317,7 @@ def run(tier):
         # (3) inconsistent chains are rejected with Warning by dumps (remote=True)
         if inconsistent_present:
             LOG.clear()
-            try:
-                rp.dumps(g)
-                outcome = 'accepted'
-            except Warning:
-                outcome = 'warning'
-            except BaseException as e:  # noqa
-                outcome = 'exc:' + type(e).__name__
+            outcome = repeated_dumps(rp, g, [g], [[g, 1]])
             chk.case(('inconsistent', str(specs)))
             chk.count('inconsistent_graphs')
             chk.count('inconsistent_' + outcome)
@@ -347,13 +358,7 @@ def run(tier):
                     labels = pk.Labels()
                     o = pk.new_instance(classes[-1], labels, a=1)
                     LOG.clear()
-                    try:
-                        rp.dumps(o)
-                        outcome = 'accepted'
-                    except Warning:
-                        outcome = 'warning'
-                    except BaseException as e:  # noqa
-                        outcome = 'exc:' + type(e).__name__
+                    outcome = repeated_dumps(rp, o, [o, o], {'k': o}) if model == 'inconsistent' else repeated_dumps(rp, o)
                     LOG.clear()
                     if model == 'inconsistent' and outcome != 'warning':
                         chk.violation('table:inconsistent-' + outcome, 'chain %s (marker=%s, __reduce__ at %s) is inconsistent but dumps %s it' % (gs, marker, red, outcome), {'specs': specs})
